@@ -111,7 +111,7 @@ func (p *xplan) build(t types.Type, term string, depth int) *xnode {
 		p.slots[len(p.slots)-1] = &n.fields[0].val
 		p.ask(n.refT, &n.refV)
 		z := vc.intLit(0, 64)
-		p.facts = append(p.facts, vc.le(z, n.lenT, true), vc.le(n.lenT, n.capT, true), vc.le(n.capT, vc.intLit(int64(p.maxElems+2), 64), true),
+		p.facts = append(p.facts, vc.le(z, n.lenT, true), vc.le(n.lenT, n.capT, true), vc.le(n.capT, vc.intLit(int64(p.maxElems+2), 64), true), vc.le(n.lenT, vc.intLit(int64(p.maxElems), 64), true),
 			vc.le(z, "(s-off "+term+")", true), vc.le("(s-off "+term+")", vc.intLit(4, 64), true))
 		hv := vc.arrHV(u.Elem())
 		h0, ok := p.heapInit(hv)
@@ -131,6 +131,11 @@ func (p *xplan) build(t types.Type, term string, depth int) *xnode {
 			break
 		}
 		n.pointee = p.buildAt(u.Elem(), term, depth+1)
+	case *types.Interface:
+		n.kind = "iface"
+		n.fields = []*xnode{{kind: "int", t: types.Typ[types.Int]}, {kind: "int", t: types.Typ[types.Int]}}
+		p.ask("(i-tag "+term+")", &n.fields[0].val)
+		p.ask("(i-val "+term+")", &n.fields[1].val)
 	default:
 		n.kind = "other"
 		n.unsup = "type " + tt.String()
@@ -338,10 +343,24 @@ func (g *goRender) expr(n *xnode) string {
 			b = append(b, byte(v.Int64()))
 		}
 		return ts + "(" + strconv.Quote(string(b)) + ")"
+	case "iface":
+		tag, _ := smtIntValue(n.fields[0].val, true, 64)
+		val, _ := smtIntValue(n.fields[1].val, true, 64)
+		if tag == nil || tag.Sign() == 0 {
+			return ts + "(nil)"
+		}
+		if val == nil {
+			val = big.NewInt(0)
+		}
+		if u, ok := n.t.Underlying().(*types.Interface); !ok || u.NumMethods() > 0 {
+			g.problems = append(g.problems, "cannot construct a value of interface "+ts)
+			return ts + "(nil)"
+		}
+		// an opaque comparable stand-in: equal iff dynamic type and payload are equal in the model
+		return ts + "([2]int64{" + tag.String() + ", " + val.String() + "})"
 	case "struct":
 		if g.foreignOpaque(n.t) {
-			g.problems = append(g.problems, "cannot construct "+ts)
-			return "*new(" + ts + ")"
+			return "*new(" + ts + ")" // zero value (e.g. sync.Mutex)
 		}
 		s, _ := structOf(n.t)
 		var fs []string
